@@ -197,8 +197,49 @@ func (h *compHooks) onReturn(g *goProg, a *AbsState, r *ssa.Return) {
 					ok = true
 				}
 			}
+			// numerically: the state entails len(dst) <= len(src) + len(src)/255 + 15, which for integers is
+			// 255*len(dst) <= 256*len(src) + 3825 (whatever form the bound takes in the source)
+			if !ok {
+				D, N := g.lenSym["dst"], g.lenSym["src"]
+				need := D.Scale(qi(255)).Sub(N.Scale(qi(256))).AddK(-3825)
+				ok = a.st.entails(need)
+				// the guard may be a comparison computed once in the entry block and branched on
+				// later (isNotCompressible): evaluate that comparison in the entry state
+				if !ok && g.parent == nil {
+					for _, l := range guardsOf(r.Block()) {
+						bo, isB := l.Cond.(*ssa.BinOp)
+						if !isB || bo.Block() != g.fn.Blocks[0] {
+							continue
+						}
+						e := g.initial()
+						states := []*AbsState{e}
+						for _, in := range g.fn.Blocks[0].Instrs {
+							if in == ssa.Instruction(bo) {
+								break
+							}
+							var next []*AbsState
+							for _, st := range states {
+								next = append(next, g.step(st, in, false)...)
+							}
+							states = next
+						}
+						all := len(states) > 0
+						for _, st := range states {
+							if !g.condRefine(st, bo, l.Val, nil) || !st.st.feasible() {
+								continue
+							}
+							if !st.st.entails(need) {
+								all = false
+							}
+						}
+						if all {
+							ok = true
+						}
+					}
+				}
+			}
 			g.coll.check("zero", g.siteKey(r, "zero-nil-return"), g.prog.InstrPos(r), "(0, nil) is returned only when len(dst) < CompressBlockBound(len(src))", ok, func() string {
-				return "the return is not dominated by the true edge of len(dst) < CompressBlockBound(len(src))"
+				return "the return is not dominated by the true edge of len(dst) < CompressBlockBound(len(src)), and the state does not entail 255*len(dst) <= 256*len(src) + 3825"
 			})
 		}
 		return
@@ -567,17 +608,22 @@ func portableDecoderRulesImpl(c *Check, prefix string) {
 			if len(r.Results) != 1 {
 				return
 			}
-			u, ok := r.Results[0].(*ssa.UnOp)
-			if !ok {
-				return
+			var v Lin
+			has := false
+			if u, ok := r.Results[0].(*ssa.UnOp); ok {
+				if al, isAl := u.X.(*ssa.Alloc); isAl {
+					v, has = a.vals["cell:"+al.Name()]
+				}
 			}
-			al, ok := u.X.(*ssa.Alloc)
-			if !ok {
-				return
-			}
-			v, has := a.vals["cell:"+al.Name()]
 			if !has {
-				return
+				// a result that is not the named-result cell: its value in this state
+				if _, _, isI := isIntType(r.Results[0].Type()); !isI {
+					return
+				}
+				if _, isRecoverBlock := r.Results[0].(*ssa.UnOp); isRecoverBlock && r.Block().Comment == "recover" {
+					return
+				}
+				v = g.val(a, r.Results[0])
 			}
 			if v.isConst() {
 				g.coll.check("result", g.siteKey(r, "const-result"), g.prog.InstrPos(r), "constant results are negative error codes", v.k.Sign() < 0, func() string { return "constant result " + v.k.String() })
